@@ -271,7 +271,8 @@ def gen_cases(ctx, n):
     tries = 0
     while len(out) < n and tries < 40 * n:
         tries += 1
-        c = gen.case(max_nodes=ctx.n(14, 18))
+        # every third tree: multi-domain targets with key-separated dependencies (constant-output part of products / sums)
+        c = gen.mdconst_case(max_nodes=ctx.n(26, 30)) if tries % 3 == 0 else gen.case(max_nodes=ctx.n(14, 18))
         if list(c["indom"]) == [""]:
             continue
         keys = sorted(set(X.keys_read(c["expr"])) & set(c["indom"]))
